@@ -74,25 +74,34 @@ type funcInfo struct {
 	results    []string
 	text       string
 	locks      []string
+	spawns     bool   // returns the list of goroutines it started last
+	spawnT     string // Coq type of the elements of that list
+	dispatch   *DispatchCfg
+	synth      bool // body of a go statement: parameters are the captured variables
+	spawnedBy  string
+	captured   []string
 }
 
 type T struct {
-	cfg      *Config
-	repo     string
-	fset     *token.FileSet
-	files    []*ast.File
-	src      map[string][]byte
-	imports  map[string]bool // names under which packages are imported in the files read
-	structs  map[string]*structInfo
-	enums    map[string][]string
-	enumOf   map[string]string
-	enumPos  map[string]ast.Node
-	globals  map[string]*globalInfo
-	funcs    map[string]*funcInfo
-	out      []string // generated items in dependency order
-	usedIntr map[string]bool
-	reserved map[string]bool
-	skipped  map[int]bool
+	cfg        *Config
+	repo       string
+	fset       *token.FileSet
+	files      []*ast.File
+	src        map[string][]byte
+	imports    map[string]bool // names under which packages are imported in the files read
+	structs    map[string]*structInfo
+	enums      map[string][]string
+	enumOf     map[string]string
+	enumPos    map[string]ast.Node
+	globals    map[string]*globalInfo
+	funcs      map[string]*funcInfo
+	out        []string // generated items in dependency order
+	usedIntr   map[string]bool
+	reserved   map[string]bool
+	skipped    map[int]bool
+	named      map[string]string       // named non-struct types of the files read -> their underlying Go type
+	spawned    map[token.Pos]*funcInfo // go statements -> the definition of their body
+	spawnOrder []*funcInfo
 }
 
 func (t *T) fail(pos token.Pos, format string, a ...interface{}) {
@@ -117,9 +126,10 @@ func main() {
 		os.Remove(*outPath)
 		os.Exit(2)
 	}
+	applyOptions(cfg)
 	t := &T{cfg: cfg, repo: *repo, fset: token.NewFileSet(), src: map[string][]byte{}, imports: map[string]bool{},
 		structs: map[string]*structInfo{}, enums: map[string][]string{}, enumOf: map[string]string{}, enumPos: map[string]ast.Node{},
-		globals: map[string]*globalInfo{}, funcs: map[string]*funcInfo{}, usedIntr: map[string]bool{}, reserved: map[string]bool{}, skipped: map[int]bool{}}
+		globals: map[string]*globalInfo{}, funcs: map[string]*funcInfo{}, usedIntr: map[string]bool{}, reserved: map[string]bool{}, skipped: map[int]bool{}, spawned: map[token.Pos]*funcInfo{}, named: map[string]string{}}
 	text, ferr := t.run()
 	if ferr != "" {
 		// no stale output: the equivalence proofs must not be checked against old
@@ -146,6 +156,33 @@ func main() {
 	fmt.Printf("gotocoq: %s: %d definitions from %s\n", *outPath, len(t.out), filepath.Join(*repo, cfg.Dir))
 }
 
+// applyOptions: the opt-in switches of the configuration (none of them set = the
+// translator behaves exactly as before they existed)
+func applyOptions(cfg *Config) {
+	if cfg.Types == nil {
+		cfg.Types = map[string]string{}
+	}
+	if cfg.Zero == nil {
+		cfg.Zero = map[string]string{}
+	}
+	if cfg.EqTypes == nil {
+		cfg.EqTypes = map[string]string{}
+	}
+	if cfg.FloatExact {
+		intKinds["float64"] = true
+	}
+	fullFuncTypes = cfg.FuncValues
+	for _, tp := range cfg.TypeParams {
+		cfg.Types[tp.Name] = tp.Name
+		if tp.Eq != "" {
+			cfg.EqTypes[tp.Name] = tp.Eq
+		}
+		if tp.Zero != "" {
+			cfg.Zero[tp.Name] = tp.Zero
+		}
+	}
+}
+
 func (t *T) run() (text string, failure string) {
 	defer func() {
 		if r := recover(); r != nil {
@@ -166,16 +203,26 @@ func (t *T) run() (text string, failure string) {
 	for _, name := range t.structOrder() {
 		t.emitStruct(t.structs[name])
 	}
+	for _, name := range sortedKeys(t.cfg.Sums) {
+		t.emitSum(name)
+	}
 	for _, fc := range t.cfg.Functions {
 		fi := t.funcs[fc.Recv+"."+fc.Name]
 		t.translateFunc(fi, token.NoPos)
+	}
+	for i := range t.cfg.Dispatch {
+		t.translateFunc(t.dispatcher(&t.cfg.Dispatch[i], token.NoPos), token.NoPos)
 	}
 	for i, sk := range t.cfg.SkipStmts {
 		if !t.skipped[i] {
 			return "", fmt.Sprintf("%s: the statement `%s` named in skip_stmts does not occur in the translated functions any more", t.cfg.Dir, sk.Text)
 		}
 	}
-	return t.header() + strings.Join(t.out, "\n") + "\n", ""
+	end := ""
+	if len(t.cfg.TypeParams) > 0 {
+		end = "\nEnd Gen.\n"
+	}
+	return t.header() + strings.Join(t.out, "\n") + "\n" + end, ""
 }
 
 func (t *T) rel(fn string) string {
@@ -266,6 +313,10 @@ func (t *T) load() error {
 								}
 							}
 							t.structs[si.name] = si
+						} else if s.TypeParams == nil && !s.Assign.IsValid() {
+							if u := typeStr(s.Type); u != "?" {
+								t.named[s.Name.Name] = u // type PriorityQueue []*Request
+							}
 						}
 					case *ast.ValueSpec:
 						for i, n := range s.Names {
@@ -352,6 +403,16 @@ func (t *T) load() error {
 			t.reserved[strings.Fields(in.Coq)[0]] = true
 		}
 	}
+	for _, tp := range t.cfg.TypeParams {
+		for _, n := range []string{tp.Name, tp.Eq, tp.Zero} {
+			if n != "" {
+				t.reserved[n] = true
+			}
+		}
+	}
+	if err := t.checkInstantiations(); err != nil {
+		return err
+	}
 	// globals are treated as constants: no assignment to them anywhere in the files read
 	for _, f := range t.files {
 		var bad error
@@ -373,6 +434,78 @@ func (t *T) load() error {
 		}
 	}
 	return nil
+}
+
+// checkInstantiations: type arguments are dropped by typeStr (MemoryCache[K, V] is read
+// as MemoryCache, the record being closed over the Section variables K, V).  That is only
+// right when every mention of a configured generic struct passes exactly the struct's own
+// type-parameter names, in order, and those names are configured type parameters.
+func (t *T) checkInstantiations() error {
+	if len(t.cfg.TypeParams) == 0 {
+		return nil // as before the option existed: type arguments are ignored
+	}
+	tpNames := map[string]bool{}
+	for _, tp := range t.cfg.TypeParams {
+		tpNames[tp.Name] = true
+	}
+	params := map[string][]string{}
+	for name, si := range t.structs {
+		if si.cfg == nil || si.extern || si.spec.TypeParams == nil {
+			continue
+		}
+		for _, fl := range si.spec.TypeParams.List {
+			for _, n := range fl.Names {
+				if !tpNames[n.Name] {
+					p := t.fset.Position(n.Pos())
+					return fmt.Errorf("%s:%d: unsupported: type parameter %s of %s is not a configured type parameter (type_params)", t.rel(p.Filename), p.Line, n.Name, name)
+				}
+				params[name] = append(params[name], n.Name)
+			}
+		}
+	}
+	var bad error
+	check := func(root ast.Node) {
+		ast.Inspect(root, func(n ast.Node) bool {
+			var x ast.Expr
+			var args []ast.Expr
+			switch n := n.(type) {
+			case *ast.IndexExpr:
+				x, args = n.X, []ast.Expr{n.Index}
+			case *ast.IndexListExpr:
+				x, args = n.X, n.Indices
+			default:
+				return true
+			}
+			id, ok := x.(*ast.Ident)
+			if !ok {
+				return true
+			}
+			si := t.structs[id.Name]
+			if si == nil || si.cfg == nil || si.extern || (id.Obj != nil && id.Obj.Kind != ast.Typ) {
+				return true
+			}
+			want := params[id.Name]
+			okArgs := len(args) == len(want)
+			for i := 0; okArgs && i < len(args); i++ {
+				a, isId := args[i].(*ast.Ident)
+				okArgs = isId && a.Name == want[i]
+			}
+			if !okArgs && bad == nil {
+				p := t.fset.Position(n.Pos())
+				bad = fmt.Errorf("%s:%d: unsupported: instantiation of %s with anything but its own type parameters [%s]", t.rel(p.Filename), p.Line, id.Name, strings.Join(want, ", "))
+			}
+			return true
+		})
+	}
+	for _, si := range t.structs {
+		if si.cfg != nil && !si.extern {
+			check(si.spec)
+		}
+	}
+	for _, fi := range t.funcs {
+		check(fi.decl)
+	}
+	return bad
 }
 
 func recvBase(d *ast.FuncDecl) string {
@@ -452,11 +585,63 @@ func typeStr(e ast.Expr) string {
 	case *ast.ParenExpr:
 		return typeStr(e.X)
 	case *ast.FuncType:
-		return "func"
+		if !fullFuncTypes {
+			return "func"
+		}
+		var ps []string
+		if e.Params != nil {
+			for _, p := range e.Params.List {
+				n := len(p.Names)
+				if n == 0 {
+					n = 1
+				}
+				for i := 0; i < n; i++ {
+					ps = append(ps, typeStr(p.Type))
+				}
+			}
+		}
+		res := ""
+		if e.Results != nil {
+			var rs []string
+			for _, r := range e.Results.List {
+				n := len(r.Names)
+				if n == 0 {
+					n = 1
+				}
+				for i := 0; i < n; i++ {
+					rs = append(rs, typeStr(r.Type))
+				}
+			}
+			res = strings.Join(rs, ",")
+			if len(rs) > 1 {
+				res = "(" + res + ")"
+			}
+		}
+		return "func(" + strings.Join(ps, ",") + ")" + res
 	case *ast.Ellipsis:
 		return "..." + typeStr(e.Elt)
 	}
 	return "?"
+}
+
+// fullFuncTypes (configuration "func_values"): function types keep their signature
+// ("func(K,V)float64"); otherwise every function type is the opaque "func"
+var fullFuncTypes = false
+
+// funcSig splits "func(A,B)R" into its parameter types and its single result type
+// ("" = none); ok is false for anything else (several results, nested function types)
+func funcSig(ty string) (params []string, res string, ok bool) {
+	if !strings.HasPrefix(ty, "func(") {
+		return nil, "", false
+	}
+	i := strings.Index(ty, ")")
+	if i < 0 || strings.Contains(ty[5:i], "(") || strings.Contains(ty[i+1:], "(") || strings.Contains(ty[i+1:], "func") {
+		return nil, "", false
+	}
+	if in := ty[5:i]; in != "" {
+		params = strings.Split(in, ",")
+	}
+	return params, ty[i+1:], true
 }
 
 var intKinds = map[string]bool{"int": true, "int8": true, "int16": true, "int32": true, "int64": true,
@@ -464,6 +649,14 @@ var intKinds = map[string]bool{"int": true, "int8": true, "int16": true, "int32"
 	"time.Duration": true, "untyped int": true}
 
 func isZ(t string) bool { return intKinds[t] }
+
+// under: the underlying Go type of a named non-struct type declared in the files read
+func (t *T) under(goT string) string {
+	if u, ok := t.named[goT]; ok {
+		return u
+	}
+	return goT
+}
 
 func (t *T) structOf(goT string) *structInfo {
 	return t.structs[strings.TrimPrefix(goT, "*")]
@@ -491,6 +684,22 @@ func (t *T) coqType(pos token.Pos, goT string) string {
 	}
 	if si := t.structOf(goT); si != nil && si.cfg != nil {
 		return si.cfg.Coq
+	}
+	if sc, ok := t.cfg.Sums[goT]; ok {
+		return sc.Coq
+	}
+	if kt, vt, ok := mapTypes(goT); ok {
+		// a map with another key type: association list, the key equality is passed to
+		// every operation (eq of the configuration)
+		return "list (" + t.coqType(pos, kt) + " * " + t.coqType(pos, vt) + ")"
+	}
+	if ps, res, ok := funcSig(goT); ok && fullFuncTypes && res != "" {
+		parts := []string{}
+		for _, p := range ps {
+			parts = append(parts, paren(t.coqType(pos, p)))
+		}
+		parts = append(parts, paren(t.coqType(pos, res)))
+		return "option (" + strings.Join(parts, " -> ") + ")"
 	}
 	t.fail(pos, "Go type %s has no Coq counterpart (type map of the configuration)", goT)
 	return ""
@@ -539,6 +748,11 @@ func (t *T) zero(pos token.Pos, goT string) string {
 		return "ErrNil"
 	case t.enums[goT] != nil:
 		return t.enums[goT][0]
+	case fullFuncTypes && strings.HasPrefix(goT, "func("):
+		return "None"
+	}
+	if sc, ok := t.cfg.Sums[goT]; ok {
+		return sc.Coq + "_nil"
 	}
 	if si := t.structOf(goT); si != nil && si.cfg != nil && !strings.HasPrefix(goT, "*") {
 		parts := []string{"mk_" + si.cfg.Coq}
@@ -580,9 +794,23 @@ func (t *T) conv(pos token.Pos, term, from, to string) string {
 			return "ErrNil"
 		case strings.HasPrefix(to, "[]"), strings.HasPrefix(to, "map["):
 			return "[]"
+		case fullFuncTypes && strings.HasPrefix(to, "func("):
+			return "None"
 		}
 		if z, ok := t.cfg.Zero[to]; ok {
 			return z
+		}
+	}
+	if sc, ok := t.cfg.Sums[to]; ok {
+		if from == "untyped nil" {
+			return sc.Coq + "_nil"
+		}
+		if strings.HasPrefix(from, "*") {
+			for _, v := range sc.Variants {
+				if v == from[1:] {
+					return sc.Coq + "_" + v + " " + paren(term)
+				}
+			}
 		}
 	}
 	if b, ok := t.cfg.Types["box:"+from+"->"+to]; ok { // concrete value stored into an interface
@@ -620,6 +848,14 @@ func (t *T) structOrder() []string {
 			if si := t.structs[b]; si != nil && si.cfg != nil {
 				visit(b)
 			}
+			// a named type the configuration maps to a Coq type that mentions a record
+			if c, ok := t.cfg.Types[f.typ]; ok {
+				for _, other := range names {
+					if o := t.structs[other]; o != nil && o.cfg != nil && other != n && containsWord(c, o.cfg.Coq) {
+						visit(other)
+					}
+				}
+			}
 		}
 		out = append(out, n)
 	}
@@ -627,6 +863,17 @@ func (t *T) structOrder() []string {
 		visit(n)
 	}
 	return out
+}
+
+func containsWord(s, w string) bool {
+	for _, f := range strings.FieldsFunc(s, func(r rune) bool {
+		return !(r == '_' || r == '\'' || (r >= '0' && r <= '9') || (r >= 'a' && r <= 'z') || (r >= 'A' && r <= 'Z'))
+	}) {
+		if f == w {
+			return true
+		}
+	}
+	return false
 }
 
 func (t *T) srcInfo(from, to token.Pos) string {
@@ -710,6 +957,147 @@ func (t *T) emitEnum(name string) {
 	t.out = append(t.out, b.String())
 }
 
+// emitSum: the Inductive of an interface type with a closed set of dynamic types
+func (t *T) emitSum(name string) {
+	sc := t.cfg.Sums[name]
+	var b strings.Builder
+	fmt.Fprintf(&b, "(* interface type %s read as a CLOSED sum (configuration \"sums\"): its dynamic types are\n   %s (held through pointers), or nil.  The assertion to a variant V is %s_as_V x, guarded by %s_is_V x. *)\n",
+		name, strings.Join(sc.Variants, ", "), sc.Coq, sc.Coq)
+	fmt.Fprintf(&b, "Inductive %s :=\n| %s_nil", sc.Coq, sc.Coq)
+	for _, v := range sc.Variants {
+		si := t.structs[v]
+		if si == nil || si.cfg == nil {
+			panic(unsupported{token.NoPos, fmt.Sprintf("sum %s: variant %s is not a configured struct", name, v)})
+		}
+		fmt.Fprintf(&b, "\n| %s_%s (v : %s)", sc.Coq, v, si.cfg.Coq)
+	}
+	b.WriteString(".\n")
+	for _, v := range sc.Variants {
+		si := t.structs[v]
+		fmt.Fprintf(&b, "Definition %s_is_%s (x : %s) : bool :=\n  match x with %s_%s _ => true | _ => false end.\n", sc.Coq, v, sc.Coq, sc.Coq, v)
+		fmt.Fprintf(&b, "Definition %s_as_%s (x : %s) : %s :=\n  match x with %s_%s v => v | _ => %s end.\n", sc.Coq, v, sc.Coq, si.cfg.Coq, sc.Coq, v, t.zero(token.NoPos, v))
+		t.reserved[sc.Coq+"_is_"+v] = true
+		t.reserved[sc.Coq+"_as_"+v] = true
+		t.reserved[sc.Coq+"_"+v] = true
+	}
+	t.reserved[sc.Coq] = true
+	t.reserved[sc.Coq+"_nil"] = true
+	t.out = append(t.out, b.String())
+}
+
+// dispatcher: the funcInfo of the generated dynamic dispatch of a method through a sum type
+func (t *T) dispatcher(dc *DispatchCfg, from token.Pos) *funcInfo {
+	key := "dispatch:" + dc.Sum + "." + dc.Method
+	if fi := t.funcs[key]; fi != nil {
+		return fi
+	}
+	if _, ok := t.cfg.Sums[dc.Sum]; !ok {
+		t.fail(from, "dispatch: %s is not a configured sum type", dc.Sum)
+	}
+	fi := &funcInfo{dispatch: dc, coq: dc.Coq, recvStruct: dc.Sum, recvName: "x_"}
+	fi.cfg = FuncCfg{Recv: dc.Sum, Name: dc.Method, Coq: dc.Coq}
+	t.funcs[key] = fi
+	t.reserved[dc.Coq] = true
+	return fi
+}
+
+func (t *T) findDispatch(sum, method string) *DispatchCfg {
+	for i := range t.cfg.Dispatch {
+		if t.cfg.Dispatch[i].Sum == sum && t.cfg.Dispatch[i].Method == method {
+			return &t.cfg.Dispatch[i]
+		}
+	}
+	return nil
+}
+
+// translateDispatcher: match on the dynamic type, call that variant's translated method
+func (t *T) translateDispatcher(fi *funcInfo, from token.Pos) {
+	dc := fi.dispatch
+	sc := t.cfg.Sums[dc.Sum]
+	fi.busy = true
+	var callees []*funcInfo
+	for _, v := range sc.Variants {
+		m := t.funcs[v+"."+dc.Method]
+		if m == nil {
+			t.fail(from, "dispatch of %s.%s: the method of variant %s is not listed in \"functions\"", dc.Sum, dc.Method, v)
+		}
+		t.translateFunc(m, from)
+		if m.stateful || m.emits || m.spawns || m.nclock > 0 || len(m.oracles) > 0 || m.cfg.State != "" {
+			t.fail(m.decl.Pos(), "dispatch of %s.%s: the method of %s changes its receiver / reads the clock / emits (only pure methods are dispatched)", dc.Sum, dc.Method, v)
+		}
+		if len(callees) > 0 {
+			a := callees[0]
+			same := len(a.params) == len(m.params) && len(a.results) == len(m.results)
+			for i := 0; same && i < len(a.params); i++ {
+				same = a.params[i].typ == m.params[i].typ
+			}
+			for i := 0; same && i < len(a.results); i++ {
+				same = a.results[i] == m.results[i]
+			}
+			if !same {
+				t.fail(m.decl.Pos(), "dispatch of %s.%s: the methods of %s and %s have different signatures", dc.Sum, dc.Method, sc.Variants[0], v)
+			}
+		}
+		callees = append(callees, m)
+		fi.panics = fi.panics || m.panics
+	}
+	first := callees[0]
+	var sig, args []string
+	sig = append(sig, fmt.Sprintf("(x_ : %s)", sc.Coq))
+	for i, p := range first.params {
+		n := fmt.Sprintf("a%d_", i+1)
+		fi.params = append(fi.params, fieldInfo{n, p.typ})
+		sig = append(sig, fmt.Sprintf("(%s : %s)", n, t.coqType(from, p.typ)))
+		args = append(args, n)
+	}
+	fi.results = first.results
+	var rts []string
+	for _, r := range fi.results {
+		rts = append(rts, paren(t.coqType(from, r)))
+	}
+	resT := "unit"
+	if len(rts) > 0 {
+		resT = strings.Join(rts, " * ")
+	}
+	zero := "tt"
+	if len(fi.results) == 1 {
+		zero = t.zero(from, fi.results[0])
+	} else if len(fi.results) > 1 {
+		var zs []string
+		for _, r := range fi.results {
+			zs = append(zs, t.zero(from, r))
+		}
+		zero = "(" + strings.Join(zs, ", ") + ")"
+	}
+	retT := resT
+	nilTerm := zero + "   (* never used: every call site is guarded, a method call on nil panics *)"
+	if fi.panics {
+		retT = "outcome unit " + paren(resT)
+		nilTerm = "Panicked tt   (* a method call on the nil interface panics *)"
+	}
+	var b strings.Builder
+	fmt.Fprintf(&b, "(* dynamic dispatch of %s.%s (configuration \"dispatch\"): the method of the value's dynamic type", dc.Sum, dc.Method)
+	if fi.panics {
+		b.WriteString(";\n   can panic (state of a panic: tt)")
+	}
+	fmt.Fprintf(&b, " *)\nDefinition %s %s\n  : %s :=\n  match x_ with\n  | %s_nil => %s\n", dc.Coq, strings.Join(sig, " "), retT, sc.Coq, nilTerm)
+	for i, v := range sc.Variants {
+		m := callees[i]
+		call := strings.TrimSpace(m.coq + " v_ " + strings.Join(args, " "))
+		switch {
+		case fi.panics && m.panics:
+			call = fmt.Sprintf("match %s with Normal _ r_ => Normal tt r_ | Panicked _ => Panicked tt end", call)
+		case fi.panics:
+			call = fmt.Sprintf("Normal tt %s", paren(call))
+		}
+		fmt.Fprintf(&b, "  | %s_%s v_ => %s\n", sc.Coq, v, call)
+	}
+	b.WriteString("  end.\n")
+	fi.text = b.String()
+	t.out = append(t.out, fi.text)
+	fi.busy, fi.done = false, true
+}
+
 func (t *T) useGlobal(g *globalInfo) (string, string) {
 	if !g.done {
 		g.done = true
@@ -753,6 +1141,31 @@ func (t *T) header() string {
 			break
 		}
 	}
+	if t.cfg.FloatExact {
+		b.WriteString("   FLOATS READ AS EXACT INTEGERS (configuration \"float_exact\"): a float64 is a Z;\n")
+		b.WriteString("   + - * and the comparisons are those of Z, conversions between float64 and the\n")
+		b.WriteString("   integer kinds (incl. the truncation of time.Duration(f)) are the identity.  This is\n")
+		b.WriteString("   NOT IEEE-754: rounding, fractions, NaN/Inf are not modelled (/ and % on floats and\n")
+		b.WriteString("   float literals with a fraction are refused).\n\n")
+	}
+	if len(t.cfg.TypeParams) > 0 {
+		b.WriteString("   Type parameters are OPAQUE types (configuration \"type_params\"): Section variables,\n")
+		b.WriteString("   with a boolean equality where == / a map key needs one and a zero value where one is\n")
+		b.WriteString("   needed; the definitions are closed over them at the end of the Section.\n\n")
+	}
+	if t.cfg.FuncValues {
+		b.WriteString("   Function values (configuration \"func_values\"): option (A -> … -> R), nil = None;\n")
+		b.WriteString("   a call is a PURE application (what the function does is not looked into), a call\n")
+		b.WriteString("   of nil is the result [Panicked s].\n\n")
+	}
+	if len(t.cfg.Sums) > 0 {
+		b.WriteString("   Interface types read as CLOSED SUMS (configuration \"sums\"): the listed struct types\n")
+		b.WriteString("   (held through pointers, read as values) or nil; a type assertion to a variant is a\n")
+		b.WriteString("   generated projection (single-value form: Panicked when the dynamic type differs), a\n")
+		b.WriteString("   method call through the interface is a generated match on the dynamic type\n")
+		b.WriteString("   (configuration \"dispatch\"; a call on nil panics).  Sharing of a struct between two\n")
+		b.WriteString("   interface values is not modelled.\n\n")
+	}
 	b.WriteString("   Functions translated:\n")
 	for _, fc := range t.cfg.Functions {
 		fi := t.funcs[fc.Recv+"."+fc.Name]
@@ -761,6 +1174,14 @@ func (t *T) header() string {
 			r = "(" + r + ")."
 		}
 		fmt.Fprintf(&b, "     %s%s -> %s%s\n", r, fc.Name, fi.coq, locksNote(fi.locks))
+	}
+	if len(t.spawnOrder) > 0 {
+		b.WriteString("\n   Goroutines (configuration \"go_statements\"): `go func() { … }()` is a RECORDED result —\n")
+		b.WriteString("   the starting function returns, last, the list of goroutines it started (the captured\n")
+		b.WriteString("   values); the body is a definition of its own, run by whoever schedules it:\n")
+		for _, g := range t.spawnOrder {
+			fmt.Fprintf(&b, "     %s -> %s (record %s_args)%s\n", g.spawnedBy, g.coq, g.coq, locksNote(g.locks))
+		}
 	}
 	b.WriteString("\n   Intrinsics used (their meaning is in Lib/GoSem.v or named here; trusted):\n")
 	for _, k := range sortedKeys(t.usedIntr) {
@@ -788,6 +1209,19 @@ func (t *T) header() string {
 		fmt.Fprintf(&b, "From Verif Require Import %s.\n", r)
 	}
 	b.WriteString("Import ListNotations.\nOpen Scope Z_scope.\n\n")
+	if len(t.cfg.TypeParams) > 0 {
+		b.WriteString("Section Gen.\n")
+		for _, tp := range t.cfg.TypeParams {
+			fmt.Fprintf(&b, "Variable %s : Type.\n", tp.Name)
+			if tp.Eq != "" {
+				fmt.Fprintf(&b, "Variable %s : %s -> %s -> bool.   (* == on %s *)\n", tp.Eq, tp.Name, tp.Name, tp.Name)
+			}
+			if tp.Zero != "" {
+				fmt.Fprintf(&b, "Variable %s : %s.   (* the zero value of %s *)\n", tp.Zero, tp.Name, tp.Name)
+			}
+		}
+		b.WriteString("\n")
+	}
 	return b.String()
 }
 
